@@ -863,6 +863,42 @@ class ContentSecurityPolicyDirectiveFrameAncestors(ContentSecurityPolicyDirectiv
             raise InvalidValue(value, type(self), 'value')
 
 
+@attr.s
+class ContentSecurityPolicyDirectiveUnknown(ParsableBase, Serializable):
+    """A directive whose name is not a member of ContentSecurityPolicyDirectiveType, kept as it is spelled."""
+
+    name = attr.ib(validator=attr.validators.instance_of(six.string_types))
+    value = attr.ib(validator=attr.validators.optional(attr.validators.instance_of(six.string_types)), default=None)
+
+    @classmethod
+    def _parse(cls, parsable):
+        parser = ParserText(parsable)
+
+        parser.parse_string_until_separator_or_end('name', ' \t')
+        known_names = [directive_type.value.code for directive_type in ContentSecurityPolicyDirectiveType]
+        if not parser['name'] or parser['name'].lower() in known_names:
+            # a known directive that none of the directive classes accepts has an invalid value
+            raise InvalidValue(parser['name'], cls, 'name')
+
+        value = None
+        if parser.unparsed_length:
+            parser.parse_separator(' \t')
+            parser.parse_string_by_length('value', min_length=0)
+            value = parser['value']
+
+        return cls(parser['name'], value), parser.parsed_length
+
+    def compose(self):
+        composer = ComposerText()
+
+        composer.compose_string(self.name)
+        if self.value is not None:
+            composer.compose_separator(' ')
+            composer.compose_string(self.value)
+
+        return composer.composed
+
+
 class ContentSecurityPolicyDirectiveVariant(VariantParsableExact):
     @classmethod
     def _get_variants(cls):
@@ -870,6 +906,14 @@ class ContentSecurityPolicyDirectiveVariant(VariantParsableExact):
             (directive_class.get_type(), [directive_class, ])
             for directive_class in get_leaf_classes(ContentSecurityPolicyDirectiveBase)
         ])
+
+    @classmethod
+    def _parse(cls, parsable):
+        try:
+            return super(ContentSecurityPolicyDirectiveVariant, cls)._parse(parsable)
+        except InvalidValue:
+            # CSP3 2.2.1 "parse a serialized CSP" keeps a directive whose name the user agent does not know
+            return ContentSecurityPolicyDirectiveUnknown.parse_exact_size(parsable), len(parsable)
 
 
 @attr.s
@@ -1176,7 +1220,9 @@ class ContentSecurityPolicyDirectiveUpgradeInsecureRequests(ContentSecurityPolic
 class HttpHeaderFieldValueContentSecurityPolicy(ParsableBase, Serializable):
     directives = attr.ib(
         validator=attr.validators.deep_iterable(
-            member_validator=attr.validators.instance_of(ContentSecurityPolicyDirectiveBase)
+            member_validator=attr.validators.instance_of(
+                (ContentSecurityPolicyDirectiveBase, ContentSecurityPolicyDirectiveUnknown)
+            )
         )
     )
 
